@@ -285,10 +285,20 @@ func runEarly(c Case) *pt.Failure {
 		if len(bs) != 1 {
 			return
 		}
-		st, resp := env.TC.BranchRollback(env.Sess, bs[0], 5*time.Second)
-		mu.Lock()
-		earlySt, earlyResp, delivered = st, resp, true
-		mu.Unlock()
+		// the coordinator may deliver the request more than once at that point (early kind: Deliveries)
+		n := c.Deliveries
+		if n < 1 {
+			n = 1
+		}
+		for i := 0; i < n; i++ {
+			st, resp := env.TC.BranchRollback(env.Sess, bs[0], 5*time.Second)
+			mu.Lock()
+			if i == 0 || !(earlyResp != nil && earlySt == branch.BranchStatusPhasetwoRollbacked) {
+				earlySt, earlyResp = st, resp
+			}
+			delivered = true
+			mu.Unlock()
+		}
 	}
 	release := make(chan struct{})
 	hit := make(chan memsql.Entry, 1)
@@ -410,7 +420,7 @@ func record(test string, c Case) {
 		canon += fmt.Sprintf("|repeat|%d", c.Deliveries)
 	case "early":
 		labels = append(labels, "point:"+c.Point, fmt.Sprintf("rolled-back-early:%v", last.reached == 1))
-		canon += "|early|" + c.Point
+		canon += "|early|" + c.Point + fmt.Sprint(c.Deliveries)
 	}
 	ctx.Rec.Case(test, last.changed && (last.reached > 0 || c.Kind == "early"), canon, c, labels...)
 }
@@ -454,6 +464,7 @@ func TestPropEarlyRollback(t *testing.T) {
 	ctx.Check(t, func(rt *rapid.T) {
 		c := drawBase(rt)
 		c.Kind, c.Point = "early", rapid.SampledFrom([]string{"before-register-reply", "before-undo-insert", "before-commit", "after-commit"}).Draw(rt, "point")
+		c.Deliveries = rapid.SampledFrom([]int{1, 1, 2, 2, 3}).Draw(rt, "deliveries")
 		fl := runCase(c)
 		record("early", c)
 		ctx.Judge(rt, "early", fl, c)
